@@ -236,7 +236,7 @@ impl Prop for Selector {
 }
 
 pub fn parts() -> Vec<Box<dyn DynPart>> {
-    vec![Box::new(Gen::new(Selector, 300_000, 30_000_000))]
+    vec![Box::new(Gen::new(Selector, 1_500_000, 150_000_000))]
 }
 
 // ---------------------------------------------------------------------------------------
@@ -405,7 +405,7 @@ async fn run_node(case: &NodeCase) -> Outcome {
 
 pub fn parts_all() -> Vec<Box<dyn DynPart>> {
     vec![
-        Box::new(Gen::new(Selector, 300_000, 30_000_000)),
-        Box::new(Gen::new(NodePart, 20_000, 1_000_000)),
+        Box::new(Gen::new(Selector, 1_500_000, 150_000_000)),
+        Box::new(Gen::new(NodePart, 60_000, 3_000_000)),
     ]
 }
